@@ -5,6 +5,7 @@ import (
 	"encoding/json"
 	"fmt"
 	"path/filepath"
+	"strings"
 	"time"
 
 	"elkverif/internal/core"
@@ -83,23 +84,69 @@ func run(c *core.Ctx) error {
 	// ---- behaviours (schedules) of the verified model, by TLC simulation
 	var behs []behaviour
 	seen := map[[20]byte]bool{}
-	sim, err := tlc.Run(tlc.Opts{SpecDir: specDir, Module: "MC_Async", Cfg: "MC_Async.cfg", Scratch: c.Scratch, Workers: 1, Timeout: 10 * time.Minute,
-		Simulate: fmt.Sprintf("num=%d", nSim), Depth: 400, Seed: c.Seed,
-		Extra: map[string][]byte{"MC_Async.tla": mc, "MC_Async.cfg": []byte(cfgText(false, true))},
-		OnGen: func(rec []byte) {
-			h := sha1.Sum(rec)
-			if seen[h] {
-				return
-			}
-			seen[h] = true
-			var b behaviour
-			if json.Unmarshal(rec, &b) == nil {
-				behs = append(behs, b)
-			}
-		}})
-	if err != nil {
-		return err
+	// two simulations: all instances, and (targeted) the graphs in which several continuations are
+	// registered on one promise, at the small queue capacities, where a settling thread finds the queue
+	// full in the middle of enqueueContinuations
+	var fanIdx []int
+	var fanGraphs []*Graph
+	for i, g := range graphs {
+		if strings.Contains(g.Name, "pressure") {
+			fanIdx = append(fanIdx, i+1)
+			fanGraphs = append(fanGraphs, g)
+		}
 	}
+	type simRun struct {
+		mc   []byte
+		n    int
+		gmap []int // index in this run -> index in graphs (1-based); nil = identity
+	}
+	runs := []simRun{{mc, nSim, nil}, {[]byte(MC("MC_Async", fanGraphs, [][2]int{{1, 1}, {2, 1}, {3, 1}})), c.Pick(2500, 12000), fanIdx}}
+	var sim *tlc.Result
+	for ri, sr := range runs {
+		sim, err = tlc.Run(tlc.Opts{SpecDir: specDir, Module: "MC_Async", Cfg: "MC_Async.cfg", Scratch: c.Scratch, Workers: 1, Timeout: 10 * time.Minute,
+			Simulate: fmt.Sprintf("num=%d", sr.n), Depth: 400, Seed: c.Seed + int64(ri),
+			Extra: map[string][]byte{"MC_Async.tla": sr.mc, "MC_Async.cfg": []byte(cfgText(false, true))},
+			OnGen: func(rec []byte) {
+				var b behaviour
+				if json.Unmarshal(rec, &b) != nil {
+					return
+				}
+				if sr.gmap != nil {
+					b.Gi = sr.gmap[b.Gi-1]
+				}
+				key, _ := json.Marshal(b)
+				h := sha1.Sum(key)
+				if seen[h] {
+					return
+				}
+				seen[h] = true
+				behs = append(behs, b)
+			}})
+		if err != nil {
+			return err
+		}
+	}
+	// how often do the behaviours reach the corner: a continuation goes to a helper goroutine (queue
+	// full) while further continuations of the same promise are still to be enqueued
+	midFull := 0
+	for _, b := range behs {
+	scan:
+		for i := 1; i < len(b.Hist); i++ {
+			if b.Hist[i].E != "enqueue.ok" || b.Hist[i].Ov <= b.Hist[i-1].Ov {
+				continue
+			}
+			for j := i + 1; j < len(b.Hist); j++ {
+				if b.Hist[j].A == b.Hist[i].A {
+					if b.Hist[j].E == "enqueue.try" {
+						midFull++
+						break scan
+					}
+					break
+				}
+			}
+		}
+	}
+	c.Cov("behaviours_with_queue_full_in_mid_enqueue", midFull)
 	if len(behs) == 0 {
 		return core.Inconclusivef("TLC simulation produced no behaviour: %s %s", sim.Verdict, tail(sim.Output, 1500))
 	}
